@@ -542,6 +542,18 @@ class InterpBase:
             return
         lc = outer[-1]
         b = o.build
+        if b is not None and b.nest == lc.loopid and not b.irregular:
+            # the inner loop of a nested filling (see Build.nest)
+            ib = b.inner or Build(lc.loopid, (), None, None, "", f"k{lc.loopid}")
+            ib = replace(ib, appended=ib.appended + (v,))
+            state.heap[p.loc] = replace(c, obj=ListObj(o.seq, replace(b, inner=ib)))
+            return
+        if b is None and len(outer) >= 2 and o.seq.length.known() == 0 and self._others_of(lc, outer[-2]):
+            # first append inside `for a in S: for b in S without a:` to a list created outside both loops
+            oc = outer[-2]
+            nb = Build(oc.loopid, (), None, None, "", f"k{oc.loopid}", nest=lc.loopid, inner=Build(lc.loopid, (v,), None, None, "", f"k{lc.loopid}"))
+            state.heap[p.loc] = replace(c, obj=ListObj(o.seq, nb))
+            return
         if b is None or b.loop != lc.loopid:
             if b is not None:
                 # appended in two different loops: give up the map shape
@@ -551,9 +563,41 @@ class InterpBase:
         b = replace(b, appended=b.appended + (v,))
         state.heap[p.loc] = replace(c, obj=ListObj(o.seq, b))
 
+    @staticmethod
+    def _others_of(inner_lc: LoopCtx, outer_lc: LoopCtx) -> bool:
+        s = getattr(inner_lc, "seq", None)
+        t = inner_lc.length.term
+        return s is not None and "others-of" in s.flags and isinstance(t, tuple) and len(t) == 3 and t[0] == "add" and t[2] == -1 and t[1] == outer_lc.length.term
+
+    @staticmethod
+    def _step_build(b: Build, token: str) -> Build:
+        """End of one iteration of the loop a (plain) build belongs to."""
+        n = len(b.appended)
+        irr = b.irregular
+        if b.per_iter is not None and b.per_iter != n:
+            irr = irr or "cond-append"
+        if n > 1:
+            irr = irr or "multi-append"
+        gen = b.gen
+        for x in b.appended:
+            gx = subst_val(x, {token: ivar(b.kvar)})
+            gen = gx if gen is None else join_val(gen, gx)
+        return replace(b, appended=(), gen=gen, per_iter=max(n, b.per_iter or 0), irregular=irr)
+
     def _end_iteration_builds(self, state: State, lc: LoopCtx) -> None:
         for loc, c in list(state.heap.items()):
             o = c.obj
+            if isinstance(o, ListObj) and o.build is not None and o.build.inner is not None and o.build.inner.loop == lc.loopid:
+                state.heap[loc] = replace(c, obj=ListObj(o.seq, replace(o.build, inner=self._step_build(o.build.inner, lc.token))))
+                continue
+            if isinstance(o, ListObj) and o.build is not None and o.build.loop == lc.loopid and o.build.nest is not None:
+                b = o.build
+                irr = b.irregular
+                if b.appended or b.inner is not None or b.rows > 1 or (b.rows_per is not None and b.rows_per != b.rows):
+                    irr = irr or ("multi-append" if b.appended or b.rows > 1 else "cond-append")
+                rg = subst_val(b.rowgen, {lc.token: ivar(b.kvar)}) if b.rowgen is not None else None
+                state.heap[loc] = replace(c, obj=ListObj(o.seq, replace(b, rows=0, rows_per=max(b.rows, b.rows_per or 0), rowgen=rg, irregular=irr, inner=None)))
+                continue
             if isinstance(o, ListObj) and o.build is not None and o.build.loop == lc.loopid:
                 b = o.build
                 n = len(b.appended)
@@ -573,6 +617,65 @@ class InterpBase:
     def _finalize_builds(self, state: State, lc: LoopCtx, had_break: bool, zero_iter_possible: bool) -> None:
         for loc, c in list(state.heap.items()):
             o = c.obj
+            if isinstance(o, ListObj) and o.build is not None and o.build.inner is not None and o.build.inner.loop == lc.loopid:
+                # the inner loop of a nested filling ends: one row is complete
+                b, ib = o.build, o.build.inner
+                gen = ib.gen
+                for x in ib.appended:
+                    gx = subst_val(x, {lc.token: ivar(ib.kvar)})
+                    gen = gx if gen is None else join_val(gen, gx)
+                ok = not ib.irregular and ib.per_iter in (None, 1) and not had_break and gen is not None
+                oc_ = next((l for l in self.loops if l.loopid == b.loop), None)
+                if gen is not None and oc_ is not None:
+                    gen = subst_val(gen, {oc_.token: ivar(b.kvar)})  # generalise the outer position before joining with earlier rows
+                if ok:
+                    rg = gen if b.rowgen is None else join_val(b.rowgen, gen)
+                    nb = replace(b, inner=None, rows=b.rows + 1, rowgen=rg, inner_kvar=ib.kvar, inner_len=lc.length)
+                else:
+                    g = gen if gen is not None else Top("empty row")
+                    nb = replace(b, inner=None, rows=b.rows + 1, rowgen=g if b.rowgen is None else join_val(b.rowgen, g), inner_kvar=ib.kvar, inner_len=lc.length,
+                                 irregular=b.irregular or ib.irregular or ("break" if had_break else "cond-append"))
+                state.heap[loc] = replace(c, obj=ListObj(o.seq, nb))
+                continue
+            if isinstance(o, ListObj) and o.build is not None and o.build.loop == lc.loopid and o.build.nest is not None:
+                b = o.build
+                base = o.seq
+                if b.rowgen is None and not b.appended:
+                    state.heap[loc] = replace(c, obj=ListObj(base, None))
+                    continue
+                il = b.inner_len
+                regular = (not b.irregular and not b.appended and b.inner is None and b.rows == 0 and b.rows_per in (None, 1) and not had_break and base.length.known() == 0
+                           and il is not None and il.term == ("add", lc.length.term, -1) and lc.length.term is not None)
+                if regular:
+                    # rows of "the others" in the order of the outer positions = the ordered pairs of distinct positions, grouped by first component
+                    pk = f"kp{lc.loopid}"
+                    ok_, ik_ = ivar(b.kvar), ivar(b.inner_kvar)
+
+                    def fn(t, ok_=ok_, ik_=ik_, pk=pk):
+                        if t == ok_:
+                            return ("pa", ivar(pk))
+                        if t == ("oth", ik_):
+                            return ("pb", ivar(pk))
+                        if t == ik_:
+                            return STAR
+                        return None
+
+                    from .values import map_val_indices
+
+                    elem = map_val_indices(b.rowgen, fn)
+                    lo, hi = lc.length.lo, lc.length.hi
+                    length = Length(("pairs", lc.length.term), lo * (lo - 1) if lo >= 1 else 0, hi * (hi - 1) if hi < INF else INF)
+                    self.pairs_base[lc.length.term] = lc.length
+                    self.axiom("rows of 'all positions but a' taken for a in the order of S enumerate the ordered pairs of distinct positions grouped by first component (the order of itertools.permutations(S, 2))")
+                    state.heap[loc] = replace(c, obj=ListObj(Seq(length, elem, pk, None, None, frozenset({"pairs"}), "list"), None))
+                else:
+                    g = subst_val(subst_val(b.rowgen, {b.kvar: STAR}), {b.inner_kvar: STAR}) if b.rowgen is not None else Top("rows")
+                    for x in b.appended:
+                        g = join_val(g, subst_val(x, {lc.token: STAR}))
+                    elem = g if base.length.known() == 0 else join_val(subst_val(base.elem, {base.kvar: STAR}), g)
+                    flags = set(base.flags) | {b.irregular or "multi-append", "reordered"}
+                    state.heap[loc] = replace(c, obj=ListObj(Seq(Length(None, base.length.lo, INF), elem, b.kvar, None, None, frozenset(flags), "list"), None))
+                continue
             if not (isinstance(o, ListObj) and o.build is not None and o.build.loop == lc.loopid):
                 continue
             b = o.build
